@@ -2845,8 +2845,8 @@ class _Desugar(ast.NodeTransformer):
     def _rewrite(self, ret):
         v = ret.value
         if isinstance(v, ast.IfExp) and not is_replace_if_present(v) and \
-                (isinstance(v.body, ast.Constant) or
-                 isinstance(v.orelse, ast.Constant)):
+                isinstance(v.body, ast.Constant) and \
+                isinstance(v.orelse, ast.Constant):
             # return A if c else B   ->   if c: return A  else: return B
             # (an answer chosen between literals is a decision)
             return [ast.copy_location(ast.If(
